@@ -1,1 +1,372 @@
+//! C11: Rough TLV round trip and layout.
+//!
+//! (a) layout + round trip: N concrete per harness (0..3), tags arbitrary u32
+//!     (ties included), value lengths symbolic in 0..=2, all three
+//!     constructors; sink = a harness-defined `ZeroCopySink` writing into an
+//!     array.  Oracle: the Roughtime layout computed directly (count, N-1
+//!     running sums, tags stably sorted by value, values concatenated).
+//! (b) rejection set: a length-only value type whose `rough_tlv_len()` is an
+//!     arbitrary usize: `Err` exactly when a length or the total exceeds
+//!     i32::MAX (total computed in u128), `new_from_sorted` additionally
+//!     exactly when tags decrease somewhere.
+use owning_iovec::ZeroCopySink;
+use rough_tlv::MessageView;
+use rough_tlv::MessageWrapper;
+use rough_tlv::Tag;
+use rough_tlv::ToRoughTLV;
+use std::borrow::Cow;
 
+const CAP: usize = 48;
+
+struct ArraySink {
+    buf: [u8; CAP],
+    len: usize,
+    borrowed: usize,
+}
+
+impl ArraySink {
+    fn new() -> Self {
+        ArraySink { buf: [0u8; CAP], len: 0, borrowed: 0 }
+    }
+
+    fn put(&mut self, bytes: &[u8]) {
+        assert!(self.len + bytes.len() <= CAP);
+        // values are at most 4 bytes here: unrolled, no symbolic-size memcpy
+        let n = bytes.len();
+        assert!(n <= 4);
+        if n > 0 {
+            self.buf[self.len] = bytes[0];
+        }
+        if n > 1 {
+            self.buf[self.len + 1] = bytes[1];
+        }
+        if n > 2 {
+            self.buf[self.len + 2] = bytes[2];
+        }
+        if n > 3 {
+            self.buf[self.len + 3] = bytes[3];
+        }
+        self.len += n;
+    }
+}
+
+impl<'a> ZeroCopySink<'a> for ArraySink {
+    fn append_copy(&mut self, bytes: &[u8]) {
+        self.put(bytes)
+    }
+
+    fn append_borrow(&mut self, bytes: &'a [u8]) {
+        self.borrowed += 1;
+        self.put(bytes)
+    }
+}
+
+fn put_word(dst: &mut [u8; CAP], at: usize, w: u32) {
+    let b = w.to_le_bytes();
+    dst[at] = b[0];
+    dst[at + 1] = b[1];
+    dst[at + 2] = b[2];
+    dst[at + 3] = b[3];
+}
+
+/// Stable order of up to 3 tags (indices of the original positions).
+fn stable_order<const N: usize>(tags: &[u32; N]) -> [usize; N] {
+    let mut idx = [0usize; N];
+    let mut i = 0;
+    while i < N {
+        idx[i] = i;
+        i += 1;
+    }
+    // insertion sort, stable
+    let mut i = 1;
+    while i < N {
+        let mut j = i;
+        while j > 0 && tags[idx[j - 1]] > tags[idx[j]] {
+            let t = idx[j - 1];
+            idx[j - 1] = idx[j];
+            idx[j] = t;
+            j -= 1;
+        }
+        i += 1;
+    }
+    idx
+}
+
+/// Which constructor: 0 = new (Vec), 1 = new_from_slice, 2 = new_from_sorted.
+fn layout<const N: usize>(ctor: u8, witness: bool) {
+    let tags: [u32; N] = kani::any();
+    let vals: [[u8; 2]; N] = kani::any();
+    let lens: [usize; N] = kani::any();
+    let mut i = 0;
+    while i < N {
+        kani::assume(lens[i] <= 2);
+        i += 1;
+    }
+    let order = stable_order(&tags);
+    let mut sorted_input = true;
+    let mut i = 0;
+    while i + 1 < N {
+        if tags[i] > tags[i + 1] {
+            sorted_input = false;
+        }
+        i += 1;
+    }
+
+    // expected bytes
+    let mut exp = [0u8; CAP];
+    let mut explen = 0usize;
+    put_word(&mut exp, 0, N as u32);
+    explen += 4;
+    let mut acc = 0u32;
+    let mut i = 0;
+    while i < N {
+        if i > 0 {
+            put_word(&mut exp, explen, acc);
+            explen += 4;
+        }
+        acc += lens[order[i]] as u32;
+        i += 1;
+    }
+    let mut i = 0;
+    while i < N {
+        put_word(&mut exp, explen, tags[order[i]]);
+        explen += 4;
+        i += 1;
+    }
+    let mut i = 0;
+    while i < N {
+        let o = order[i];
+        if lens[o] > 0 {
+            exp[explen] = vals[o][0];
+        }
+        if lens[o] > 1 {
+            exp[explen + 1] = vals[o][1];
+        }
+        explen += lens[o];
+        i += 1;
+    }
+
+    let mut entries: [(Tag, &[u8]); N] = [(Tag::new_from_u32(0), &[][..]); N];
+    let mut i = 0;
+    while i < N {
+        entries[i] = (Tag::new_from_u32(tags[i]), &vals[i][..lens[i]]);
+        i += 1;
+    }
+
+    let mut sink = ArraySink::new();
+    let reported_len;
+    match ctor {
+        0 => {
+            let mut v = Vec::with_capacity(N + 1);
+            let mut i = 0;
+            while i < N {
+                v.push(entries[i]);
+                i += 1;
+            }
+            let w = MessageWrapper::<&[u8]>::new(v).expect("within limits");
+            reported_len = w.rough_tlv_len();
+            w.to_rough_tlv(&mut sink);
+        }
+        1 => {
+            let w = MessageWrapper::<&[u8]>::new_from_slice(&mut entries).expect("within limits");
+            reported_len = w.rough_tlv_len();
+            w.to_rough_tlv(&mut sink);
+        }
+        _ => {
+            let w = MessageWrapper::<&[u8]>::new_from_sorted(&entries);
+            assert_eq!(w.is_ok(), sorted_input);
+            match w {
+                Ok(w) => {
+                    reported_len = w.rough_tlv_len();
+                    w.to_rough_tlv(&mut sink);
+                }
+                Err(_) => return,
+            }
+        }
+    }
+
+    assert_eq!(reported_len, explen);
+    assert_eq!(sink.len, explen);
+    let j: usize = kani::any();
+    if j < explen {
+        assert_eq!(sink.buf[j], exp[j]);
+    }
+
+    // The view accepts the bytes and returns the same pairs in the same order.
+    let view = MessageView::new(Cow::Borrowed(&sink.buf[..sink.len]));
+    assert!(view.is_ok());
+    let view = view.unwrap();
+    assert_eq!(view.len(), N);
+    {
+        let mut it = view.iter();
+        let mut k = 0;
+        while k < N {
+            let o = order[k];
+            let (t, v) = it.next().expect("N pairs");
+            assert_eq!(t.value(), tags[o]);
+            assert_eq!(v.len(), lens[o]);
+            if lens[o] > 0 {
+                assert_eq!(v[0], vals[o][0]);
+            }
+            if lens[o] > 1 {
+                assert_eq!(v[1], vals[o][1]);
+            }
+            let (t2, v2) = view.get(k).expect("index < N");
+            assert_eq!(t2.value(), t.value());
+            assert!(v2.as_ptr() == v.as_ptr() && v2.len() == v.len());
+            k += 1;
+        }
+        assert!(it.next().is_none());
+        assert!(view.get(N).is_none());
+    }
+    if N > 0 {
+        // tag lookup returns a value stored under exactly that tag
+        let q: usize = kani::any();
+        kani::assume(q < N);
+        let found = view.find(Tag::new_from_u32(tags[q])).expect("present tag");
+        let mut ok = false;
+        let mut k = 0;
+        while k < N {
+            let o = order[k];
+            let v = view.get_value(k).unwrap();
+            if tags[o] == tags[q] && v.as_ptr() == found.as_ptr() && v.len() == found.len() {
+                ok = true;
+            }
+            k += 1;
+        }
+        assert!(ok);
+    }
+
+    if N >= 2 {
+        kani::cover!(tags[0] == tags[1] && lens[0] != lens[1], "repeated tag: ties keep insertion order");
+        kani::cover!(tags[0] > tags[1], "unsorted input");
+        kani::cover!(lens[order[0]] == 0, "empty first value (offset 0 repeated)");
+    }
+    if witness {
+        assert!(false, "reachability witness: harness end reached");
+    }
+}
+
+macro_rules! layout_proofs {
+    ($($name:ident = ($n:expr, $ctor:expr, $w:expr);)*) => {
+        $(
+            #[kani::proof]
+            #[kani::unwind(6)]
+            fn $name() {
+                layout::<$n>($ctor, $w)
+            }
+        )*
+    };
+}
+
+layout_proofs! {
+    c11_layout_n0_new = (0, 0, false);
+    c11_layout_n1_new = (1, 0, false);
+    c11_layout_n2_new = (2, 0, false);
+    c11_layout_n3_new = (3, 0, false);
+    c11_layout_n2_slice = (2, 1, false);
+    c11_layout_n3_slice = (3, 1, false);
+    c11_layout_n2_sorted = (2, 2, false);
+    c11_layout_n3_sorted = (3, 2, false);
+    c11_layout_n2_slice_witness = (2, 1, true);
+}
+
+// ---------------------------------------------------------------------------
+// (b) rejection set
+
+#[derive(Clone, Copy)]
+struct LenOnly(usize);
+
+impl<'a> ToRoughTLV<'a> for LenOnly {
+    fn to_rough_tlv<'dst, Sink>(&self, _sink: &mut Sink)
+    where
+        'a: 'dst,
+        Sink: ZeroCopySink<'dst> + ?Sized,
+    {
+    }
+
+    fn rough_tlv_len(&self) -> usize {
+        self.0
+    }
+}
+
+fn reject<const N: usize>(ctor: u8) {
+    let tags: [u32; N] = kani::any();
+    let lens: [usize; N] = kani::any();
+    let mut too_large = false;
+    let mut total: u128 = 4 + 4 * (if N > 0 { N as u128 - 1 } else { 0 }) + 4 * (N as u128);
+    let mut sorted_input = true;
+    let mut i = 0;
+    while i < N {
+        if lens[i] > i32::MAX as usize {
+            too_large = true;
+        }
+        total += lens[i] as u128;
+        if i + 1 < N && tags[i] > tags[i + 1] {
+            sorted_input = false;
+        }
+        i += 1;
+    }
+    let expect_err = too_large || total > i32::MAX as u128;
+
+    let mut entries: [(Tag, LenOnly); N] = [(Tag::new_from_u32(0), LenOnly(0)); N];
+    let mut i = 0;
+    while i < N {
+        entries[i] = (Tag::new_from_u32(tags[i]), LenOnly(lens[i]));
+        i += 1;
+    }
+    let got_len;
+    match ctor {
+        0 => {
+            let mut v = Vec::with_capacity(N + 1);
+            let mut i = 0;
+            while i < N {
+                v.push(entries[i]);
+                i += 1;
+            }
+            let w = MessageWrapper::new(v);
+            assert_eq!(w.is_err(), expect_err);
+            got_len = w.ok().map(|w| w.rough_tlv_len());
+        }
+        1 => {
+            let w = MessageWrapper::new_from_slice(&mut entries);
+            assert_eq!(w.is_err(), expect_err);
+            got_len = w.ok().map(|w| w.rough_tlv_len());
+        }
+        _ => {
+            let w = MessageWrapper::new_from_sorted(&entries);
+            assert_eq!(w.is_err(), expect_err || !sorted_input);
+            got_len = w.ok().map(|w| w.rough_tlv_len());
+        }
+    }
+    if let Some(l) = got_len {
+        assert_eq!(l as u128, total);
+    }
+    kani::cover!(!too_large && total == i32::MAX as u128, "total exactly i32::MAX is accepted");
+    kani::cover!(!too_large && total == i32::MAX as u128 + 1, "total one above i32::MAX is rejected");
+    kani::cover!(too_large && total < (1u128 << 40), "a single value above i32::MAX");
+    if N >= 2 {
+        kani::cover!(lens[0] > usize::MAX / 2 && lens[1] > usize::MAX / 2, "sum overflows usize");
+    }
+}
+
+macro_rules! reject_proofs {
+    ($($name:ident = ($n:expr, $ctor:expr);)*) => {
+        $(
+            #[kani::proof]
+            #[kani::unwind(6)]
+            fn $name() {
+                reject::<$n>($ctor)
+            }
+        )*
+    };
+}
+
+reject_proofs! {
+    c11_reject_n1_new = (1, 0);
+    c11_reject_n2_new = (2, 0);
+    c11_reject_n3_new = (3, 0);
+    c11_reject_n3_slice = (3, 1);
+    c11_reject_n2_sorted = (2, 2);
+    c11_reject_n3_sorted = (3, 2);
+}
